@@ -24,6 +24,9 @@ CHECKS = {
  "C17": dict(level="model_checking", technique="exhaustive enumeration of configurations/fault positions of the real retention.Service loop on a virtual clock (synctest bubble), reference expiry model",
    text="The real retention.Service goroutine runs in a synctest bubble (virtual ticker/time.Now). Every tuple of (duration 0/1h/2h, later alteration, state of 4 shard groups: absent/live/truncated/deleted/deleted>2w, tick 1ns before/at/after the expiry boundary, local shard set incl. unknown ids, metadata error at call k, 1-2 passes) is executed (540k executions) and checked: a local shard is deleted only if its group is marked deleted or end+duration < now; after an error-free pass every expired group is marked and every local shard of a deleted/expired group is gone; nothing of an infinite policy expires.",
    note="meta client is a thin view over a real meta.Data with injected errors; store is a recording stub; the write-time cut-off clause is decided by the C08 check.", ref="§6 C17"),
+ "C13": dict(level="exploration", technique="bounded-exhaustive input enumeration on the real tsm1 block encoders/decoders (2 encoders x 2 decoders) and WAL segment reader (every cut offset)",
+   text="Per field type every value sequence of length <=4 (5 thorough) over boundary alphabets (2^60 simple8b limit, zig-zag extremes, -0/denormal/extreme floats, empty/64KB strings) x timestamp start/delta alphabets (incl. unsorted/wrapping), plus run families at every length 1..1100 (2100 thorough), each encoded by the iterator encoder and the batch encoder and decoded by DecodeBlock and Decode*ArrayBlock: bit-identical. Every sequence of <=2 (3 thorough) WAL entries of 9 kinds is written with the real segment writer and cut at every byte offset: the reader returns exactly the entries wholly before the cut, unchanged (also after the reader moved on), without panic.",
+   note="small-scope alphabets placed on the constants the encoders branch on; NaN/Inf are outside (refused by parser and encoder).", ref="§6 C13"),
 }
 NA_REASON = "check not built yet in this round (planned in DESIGN.md §6); nothing is claimed for it"
 m = {
